@@ -7,6 +7,7 @@ compared with the audited table rules/panic_audit.toml. More occurrences than au
 signature, is a violation; fewer is fine.
 """
 import os
+import json
 import re
 import tomllib
 from collections import Counter, defaultdict
@@ -331,7 +332,7 @@ def discharge_by_pattern(crate, e):
                 if not sl.calls and not sl.params() and not real_fields and all(isinstance(c, int) and abs(c) <= 64 for c in cs):
                     return "induction counter built from small constants (would need 2^64 iterations to overflow)"
         if msg == "Overflow(Sub)" and len(ops) == 2:
-            why = index_below_len(b, ops, e.bb) or guarded_sub(b, ops, e.bb)
+            why = index_below_len(b, ops, e.bb) or guarded_sub(b, ops, e.bb) or facts_guarded_sub(b, ops, e.bb)
             if why:
                 return why
         if msg.startswith("Overflow(Div") or msg.startswith("Overflow(Rem"):
@@ -421,6 +422,36 @@ def guarded_sub(b, ops, at):
         if not dirty:
             return "subtraction guarded by the dominating comparison %s (edge bb%d->bb%d) on the same two places" % (rv["op"], sb, tgt)
     return None
+
+
+def facts_guarded_sub(b, ops, at):
+    """`a - b` at a block where the comparison-fact analysis (dominating edges of comparisons, named flags, negations,
+    `&&`/`||` lowered to control flow) guarantees a > b or a >= b, neither place being written on the way."""
+    from .props import c13
+    ra, rb = c13.root(b, ops[0]), c13.root(b, ops[1])
+    if ra is None or rb is None or ra == rb:
+        return None
+    facts = c13.edge_facts(b, at)
+    want = {c13.norm_fact("Gt", ra, rb), c13.norm_fact("Ge", ra, rb)}
+    hit = [f for f in facts if f in want]
+    if not hit:
+        return None
+    # no store to either root on any path into the subtraction
+    before = {x for x in b.reachable() if at in b.reach([x])}
+    for r in (ra, rb):
+        if r[0] == "c":
+            continue
+        l = r[1]
+        for d in b.defs().get(l, ()):
+            if d["kind"] == "param" or d.get("bb", -1) not in before:
+                continue
+            if r[0] == "l":
+                if len([x for x in b.defs().get(l, ()) if x["kind"] != "param"]) > 1:
+                    return None
+            else:
+                if d["kind"] != "assign" or not d["lhs"]["p"] or d.get("via_ref") is not None or json.dumps(d["lhs"]["p"], sort_keys=True) == r[2]:
+                    return None
+    return "subtraction guarded by the dominating comparison fact %s" % (hit[0],)
 
 
 def index_below_len(b, ops, at):
